@@ -23,11 +23,11 @@ Fixpoint get_diff_old (fuel : nat) (c : config) (log : list entry) (vis : Z -> Z
     match pp ++ qq with
     | [] => set_state m SEQ (vis (nseq c))
     | _ :: _ =>
-      if (0 <? tl_thr c) && (vis 0 - reqp >? tl_thr c) then
-        let m := emit m [Persist 0 (vis 0); TooLong 0] in
+      if tlf c vis reqp then
+        let m := emit m [Persist 0 (vis 0); TooLong 0 reqp (vis 0)] in
         get_diff_old f c log vis (set_state m 0 (vis 0))
       else
-        let '(cut, cutq, sliced) := slice_cut2 (slice_lim c) log vis reqp reqq in
+        let '(cut, cutq, sliced) := cutf c log vis reqp reqq in
         let pp' := pend log 0 reqp cut in
         let qq' := pend log 1 reqq cutq in
         let others := filter (fun e => negb (is_msg e)) pp' ++ filter (fun e => negb (is_msg e)) qq' in
@@ -49,10 +49,10 @@ Fixpoint chan_diff_old (fuel : nat) (c : config) (log : list entry) (vis : Z -> 
     match pp with
     | [] => set_state (emit m [Persist s (vis s)]) s (vis s)
     | _ :: _ =>
-      if (0 <? ctl_thr c) && (vis s - req >? ctl_thr c) then
-        set_state (emit m [Persist s (vis s); TooLong s]) s (vis s)
+      if ctlf c s (vis s) req then
+        set_state (emit m [Persist s (vis s); TooLong s req (vis s)]) s (vis s)
       else
-        let '(cut, sliced) := slice_cut (cslice_lim c) pp (vis s) in
+        let '(cut, sliced) := ccutf c s pp (vis s) in
         let pp' := pend log s req cut in
         let m := emit m (delivers (filter is_msg pp') ++ [Persist s cut]) in
         let m := set_state m s cut in
@@ -81,11 +81,11 @@ Definition mrun_old (c : config) (log : list entry) (ops : list mop) : mgr :=
 (* decidable versions of the specification predicates, for the witnesses *)
 Definition deliveredb (s id : Z) (tr : list tev) : bool :=
   existsb (fun ev => match ev with Deliver s' i => (s' =? s) && (i =? id) | _ => false end) tr.
-Definition toolongb (s : Z) (tr : list tev) : bool :=
-  existsb (fun ev => match ev with TooLong s' => s' =? s | _ => false end) tr.
+Definition toolongb (s p : Z) (tr : list tev) : bool :=
+  existsb (fun ev => match ev with TooLong s' f t => (s' =? s) && (f <? p) && (p <=? t) | _ => false end) tr.
 Definition count_delivered (s id : Z) (tr : list tev) : nat :=
   length (filter (fun ev => match ev with Deliver s' i => (s' =? s) && (i =? id) | _ => false end) tr).
 (* some entry within the persisted range of its sequence is neither delivered nor reported *)
 Definition unsafe_atb (c : config) (log : list entry) (tr : list tev) : bool :=
   existsb (fun e => (0 <=? eseq e) && (base c (eseq e) <? epos e) && (epos e <=? persisted c (eseq e) tr)
-                    && negb (deliveredb (eseq e) (eid e) tr) && negb (toolongb (eseq e) tr)) log.
+                    && negb (deliveredb (eseq e) (eid e) tr) && negb (toolongb (eseq e) (epos e) tr)) log.
